@@ -58,9 +58,15 @@ def make_resolver(built, coord, spec):
         elif kind == "argEcho": res = args.get(spec["arg"])
         if built.scribble:
             # a resolver is free to modify ITS OWN arguments: nothing of it may be seen by another call
-            for v in list(args.values()):
-                if isinstance(v, list): v.append("scribble")
-                elif isinstance(v, dict): v["scribble"] = "scribble"
+            def deep(v, d=0):       # every mutable object reachable from the arguments is modified in place
+                if d > 6: return
+                if isinstance(v, list):
+                    for x in list(v): deep(x, d + 1)
+                    v.append("scribble")
+                elif isinstance(v, dict):
+                    for x in list(v.values()): deep(x, d + 1)
+                    v["scribble"] = "scribble"
+            for v in list(args.values()): deep(v)
             args["scribble"] = "scribble"
         if kind == "const": return dec(spec["v"])
         if kind == "raise": raise dec(spec["v"])
